@@ -41,6 +41,15 @@ def main():
             ctx.proof_breaks.append(f'implementation raised {type(e).__name__}: {e} at {f.filename}:{f.lineno} '
                                     f'({f.name}) while the harness observed it on a generated valid input')
             return ctx.finish(getattr(mod, 'LEVEL', 'proof'), None)
+        in_props = [f for f in tb if '/harness/props/' in f.filename or '/harness/structural' in f.filename
+                    or '/harness/pipes' in f.filename]
+        if ctx.observing and in_props and not isinstance(e, (MemoryError, OSError, KeyboardInterrupt)):
+            # the harness could not interpret what the implementation returned (a shape, type or count the model never
+            # produces on this input): the correspondence is broken; nothing here shows the property failing
+            f = in_props[-1]
+            ctx.proof_breaks.append(f'the harness could not interpret the implementation\'s output: {type(e).__name__}: {e} at '
+                                    f'{f.filename}:{f.lineno} ({f.name})')
+            return ctx.finish(getattr(mod, 'LEVEL', 'proof'), None)
         return 2
 
 
